@@ -159,6 +159,14 @@ def run(res, tier, rng, table_diffs=()):
                 if ta != tb and not (op in ("&&", "||") and ta == tb == "bool"):
                     e = "err Type"
                 cases.append(("cross", src, e))
+    # a value compared with ITSELF (same variable, alias, same element, same parameter): NaN is not equal to itself
+    from .. import enum as _enum
+    for p in _enum.same_object_programs():
+        exp = None
+        if p.startswith('stel n = 0.0 / 0.0; n ') or p.startswith('stel n = float("nan"); n '):
+            op = p.rsplit(" ", 2)[1]
+            exp = "ok b:ja" if op == "!=" else "ok b:nee"
+        cases.append(("same-object", p, exp))
     reqs = ["eval 100000 " + hx(c[1]) for c in cases]
     ia = core.impl(reqs)
     ma = core.model(reqs)
